@@ -167,6 +167,40 @@ theorem ensemble_eq_aggregate_of_members (agg : Option Agg) (names : List String
   obtain ⟨p, l, hp1, hp2⟩ := hget i hi
   exact ⟨_, oi, li, _, p, l, hr, hp2, hp1⟩
 
+/-! ### OnlineEnsembleForecaster with a weighting algorithm -/
+
+/-- THE ONLINE-ENSEMBLE CLAUSE, for every weighting algorithm `A` (any state, any update rule, weights
+that need not sum to 1): a forecast is, row by row, Σᵢ weightᵢ · (member i's forecast) for the weights
+the algorithm holds at that moment (`A.weights a`); the members forecast on their own, the algorithm's
+state is not touched by `predict`.  (Holds for `update` as coded and as repaired.) -/
+theorem online_predict_eq_weighted_sum (fixed : Bool) (A : Weigher) (names : List String) (Fs : List Forecaster)
+    (b : Base) (ss : States Fs) (a : A.S) (fh : Option Horizon)
+    (b' : Base) (st' : Option (States Fs) × A.S) (out : Series) (log : Log)
+    (h : ((onlineEnsembleG fixed A names Fs).predict (b, some ss, a) fh).run = .ok (((b', st'), out), log)) :
+    ∃ f ss' ps, effFh b.fh fh = some f ∧ st' = (some ss', a) ∧
+      (predictAll Fs ss (some f)).run = .ok ((ss', ps), log) ∧
+      (∀ i, i < Fs.length → ∃ p l, ps[i]? = some p ∧
+        ((member Fs i).predict (ss.get Fs i) (some f)).run = .ok ((ss'.get Fs i, p), l)) ∧
+      out = weighted (A.weights a) ps ∧
+      (∀ i, i < nRows ps → ∃ lab, (firstLabels ps)[i]? = some lab ∧
+        out[i]? = some (lab, wsumRow (A.weights a) (column ps i))) := by
+  simp only [onlineEnsembleG] at h
+  obtain ⟨_, _, h⟩ := lift_bind_eq_ok.mp h
+  obtain ⟨b1, hb1, h⟩ := lift_bind_eq_ok.mp h
+  obtain ⟨f, hf, h⟩ := lift_bind_eq_ok.mp h
+  obtain ⟨⟨ss', ps⟩, l1, l2, h1, h2, rfl⟩ := bind_eq_ok.mp h
+  obtain ⟨heq, rfl⟩ := pure_eq_ok.mp h2
+  simp only [Prod.mk.injEq] at heq
+  obtain ⟨⟨rfl, rfl⟩, rfl⟩ := heq
+  obtain ⟨rfl, _⟩ := Base.setFhOpt_ok hb1
+  have hfh := Base.getFh_ok hf
+  simp only at hfh
+  have h1' : (predictAll Fs ss (some f)).run = .ok ((ss', ps), l1 ++ []) := by simpa using h1
+  obtain ⟨_, hget⟩ := predictAll_get Fs ss (some f) ss' ps _ h1'
+  exact ⟨f, ss', ps, hfh, rfl, h1', hget, rfl, fun i hi => weighted_getElem _ ps i hi⟩
+
+example : wsumRow [2, 1 / 2] [3, 4] = 8 := by decide +kernel
+
 /-! ## 3. TransformedTargetForecaster -/
 
 /-- `fit`, from any earlier state: every transformer is a fresh clone fitted in pipeline order on the
